@@ -280,7 +280,10 @@ class Paraxial:
         max_field = self.optic.fields.max_y_field
 
         if self.optic.field_type == 'object_height':
-            u1 = 0.1 * max_field / y[-1]
+            # the object surface does not propagate rays: continue the
+            # reverse-traced ray from the first surface to the object plane
+            t0 = self.surfaces.positions[1] - self.surfaces.positions[0]
+            u1 = 0.1 * max_field / (y[-1] + u[-1] * t0)
         elif self.optic.field_type == 'angle':
             u1 = 0.1 * np.tan(np.deg2rad(max_field)) / u[-1]
 
